@@ -41,6 +41,7 @@ var (
 	vfManifest  []byte
 	vfHoleAtStart bool
 	vfReduced     bool // fewer fault kinds (multi-attempt / multi-layer jobs)
+	vfNonCovering bool // the registry streamed a chunk list that does not cover a layer
 )
 
 func vfDig(i int) blob.Digest {
@@ -223,7 +224,10 @@ func vfAllIntactTag(tag string) {
 			all = false
 		}
 	}
-	if vfHoleAtStart {
+	if vfNonCovering {
+		// known finding: coverage of the chunk list is judged by byte count only
+		tag += "@chunk-list-does-not-cover-the-layer"
+	} else if vfHoleAtStart {
 		// known finding (C08's chunk hole seen from Pull): a layer file that reached its full length with
 		// a range missing in an earlier attempt is taken for a cached layer
 		tag += "@layer-file-of-full-length-with-a-missing-range-from-an-earlier-attempt"
@@ -251,7 +255,18 @@ func vfChunksums(r *Registry, ctx context.Context, name string, l *Layer) iter.S
 		}
 	}
 	return func(yield func(chunksum, error) bool) {
-		switch verifChoice(3) {
+		nPlans := 3
+		if !vfReduced {
+			nPlans = 4
+		}
+		switch verifChoice(nPlans) {
+		case 3: // a chunk list that does not cover the layer: the same range twice
+			vfNonCovering = true
+			cs := chunksum{URL: "u", Chunk: blob.Chunk{Start: 2, End: l.Size - 1}, Digest: vfChunkDig[2+li]}
+			if !yield(cs, nil) {
+				return
+			}
+			yield(cs, nil)
 		case 0:
 			yield(chunksum{URL: "u", Chunk: blob.Chunk{Start: 0, End: l.Size - 1}, Digest: l.Digest}, nil)
 		case 1:
@@ -301,6 +316,7 @@ func VerifC09RegistryPull(nLayers, attempts, reduced int) {
 	vfFiles = map[blob.Digest]*vfFile{}
 	vfChunkers = map[*blob.Chunker]*vfChunkerState{}
 	vfLayers, vfChunkDig, vfLinked, vfHashSeen = nil, nil, 0, nil
+	vfNonCovering = false
 	vfManifest = []byte("manifest")
 	for i := 0; i < nLayers; i++ {
 		vfLayers = append(vfLayers, &Layer{Digest: vfDig(i + 1), Size: vfLayerSize})
